@@ -84,8 +84,9 @@ example : StdModel id := fun x => ⟨0, by norm_num, by simp⟩
 rounding errors (the parse, the literal, the division), too many for the standard model alone at the top of the supply
 range: 3·2^-53·21·10^14 > 1/2.  Two facts about round-to-nearest close the gap: the literal `1e-08` is much closer to 10^-8
 than half an ulp (`lit1em8_close`, a computation), and above 2·10^7 coins the parse error is bounded by half an ulp of the
-binade below 2^25 (`BinadeModel`).  For the other denominator symbols (`mBTC`, `µBTC`, …: one more multiplication by an
-inexact constant) no such theorem is proved; they are decided by the correspondence run only. -/
+binade below 2^25 (`BinadeModel`).  Strings with another denominator symbol (`mBTC`, `µBTC`, …) used to multiply by one more
+inexact constant (finding F52: off by one satoshi for large amounts); since the repair the library forms the decimal product
+exactly and rounds it once, which is the same pipeline with x = n / 10^8 the product, so the theorem covers them too. -/
 
 /-- round-to-nearest: below 2^k the absolute error is at most half a unit in the last place of that binade -/
 def BinadeModel (fl : ℚ → ℚ) : Prop := ∀ (x : ℚ) (k : ℕ), |x| < 2 ^ k → |fl x - x| ≤ 2 ^ k / 2 ^ 54
